@@ -134,7 +134,7 @@ class Ctx:
         res = None
         it = self.top_interp(key)
         ws = self.write_set(key)
-        if it is not None and ws and len(it.body.blocks) <= 12 and len(it.body.return_blocks) == 1:
+        if it is not None and ws and len(it.body.blocks) <= 48 and len(it.body.return_blocks) == 1:
             from . import summaries
             S = it.exit_state(it.body.return_blocks[0])
             if S is not None and not S.dead:
@@ -143,13 +143,10 @@ class Ctx:
                     base = (("P", ("ld", (it.L(i), ()), "entry")), ())
                     for pr in projs:
                         v = S.read((base[0], pr))
-                        if summaries.is_entry_expr(v):
-                            res[(i, pr)] = v
-                        else:
-                            res = None
-                            break
-                    if res is None:
-                        break
+                        # a location whose final value is not one expression over the parameters is simply unknown afterwards
+                        res[(i, pr)] = v if summaries.is_entry_expr(v) else None
+                if all(v is None for v in res.values()):
+                    res = None
         self.effect_cache[key] = res
         return res
 
@@ -854,7 +851,7 @@ class Interp:
             argc = self.prog.bodies[path].arg_count
             vals = {}
             for (i, pr), tmpl in eff.items():
-                vals[(i, pr)] = summaries.translate(tmpl, self, S_pre, args, argc)
+                vals[(i, pr)] = summaries.translate(tmpl, self, S_pre, args, argc) if tmpl is not None else None
             for (i, pr), v in vals.items():
                 base = self.target(args[i - 1])
                 loc = (base[0], base[1] + pr)
